@@ -48,7 +48,7 @@ manifest = {
     }],
     "checks": checks,
     "not_applicable": na,
-    "notes": "Every check: regenerate constants and the translated definitions (tools/gen_*.py: about 280 functions of the BDD / SDD / decision-DNNF builders, tables, orders, vtrees, CNF utilities, propagator, optimisation queries, semirings, serialisers, C wrappers) from the source, lake build + axiom audit of every theorem of the property's modules, cargo build of the harness against /repo's working tree, correspondence run (harness | Lean driver), verdict, evidence; --replay re-runs the recorded cases on the current tree. See DESIGN.md (section 9 for the state as built).",
+    "notes": "Every check: regenerate constants and the translated definitions (tools/gen_*.py: about 360 functions of the BDD / SDD / decision-DNNF builders, tables, orders, vtrees, CNF utilities, propagator, optimisation queries, semirings, serialisers, C wrappers) from the source, lake build + axiom audit of every theorem of the property's modules, cargo build of the harness against /repo's working tree, correspondence run (harness | Lean driver), verdict, evidence; --replay re-runs the recorded cases on the current tree. See DESIGN.md (section 9 for the state as built).",
 }
 json.dump(manifest, open(os.path.join(ROOT, "MANIFEST.json"), "w"), indent=1)
 print("wrote MANIFEST.json with", len(checks), "checks;", len(na), "not claimed")
